@@ -42,7 +42,8 @@ fn craft_wm_codes(freq: &mut HashMap<usize, u32>, sigma: usize) -> Vec<PrefixCod
     crate::verif::permute_ties(&mut f, |x| x.0);
     f.sort_by_key(|x| x.1);
 
-    let mut c = vec![0; alph_size];
+    // a single symbol still gets a one-bit code, whose sibling needs a slot too
+    let mut c = vec![0; alph_size.max(2)];
     let mut assignments = vec![PrefixCode { content: 0, len: 0 }; sigma + 1];
     let mut m = 1; //how many codes we have so far
     let mut l = 0;
